@@ -21,6 +21,7 @@ def parseOp (w : List String) : Option Op :=
     let k ← match k with | "tcp" => some Kind.tcp | "udp" => some Kind.udp | "acc" => some Kind.acc | _ => none
     pure (.mkSock (← i.toNat?) k (← d.toNat?) (← b01 a) (← b01 b) (← b01 c))
   | ["send", i] => do pure (.send (← i.toNat?))
+  | ["echo", i] => do pure (.echo (← i.toNat?))
   | ["release", i] => do pure (.release (← i.toNat?))
   | ["dsock", i] => do pure (.destroySock (← i.toNat?))
   | ["psend", i] => do pure (.peerSend (← i.toNat?))
@@ -136,7 +137,11 @@ partial def go (m : Sys) (sp : SpecSt) (tags : List String) : List String → Ve
             let tag := match op? with
               | some (.send i) => if (s.sock i).alive && !((s.drv (s.sock i).drv).alive) then ["send.nodriver"]
                   else if !((s.drv (s.sock i).drv).pfds.any (·.1 = i)) then ["send.unregistered"] else ["send"]
-              | some (.destroySock i) => if (s.sock i).sendQ.isEmpty then ["dsock"] else ["dsock.pending"]
+              | some (.echo i) => if (s.sock i).alive && !((s.drv (s.sock i).drv).alive) then ["echo.nodriver"]
+                  else if !((s.drv (s.sock i).drv).pfds.any (·.1 = i)) then ["echo.unregistered"] else ["echo"]
+              -- `dsock.echoed`: a receive buffer of the socket's own pool is still in its send queue
+              | some (.destroySock i) => if (s.sock i).sendQ.isEmpty then ["dsock"]
+                  else if s.lent (s.sock i) > 0 then ["dsock.pending", "dsock.echoed"] else ["dsock.pending"]
               | some (.destroyDriver d) => if (s.drv d).sockets.isEmpty && (s.drv d).todos.isEmpty then ["ddriver.empty"] else ["ddriver.busy"]
               | some (.step d) => if (s.drv d).sockets.isEmpty && (s.drv d).todos.isEmpty then ["step.empty"] else ["step"]
               | some (.cancel t) => if (s.drv (s.todo t).drv).todos.contains t then ["cancel"] else ["cancel.finished"]
@@ -146,7 +151,9 @@ partial def go (m : Sys) (sp : SpecSt) (tags : List String) : List String → Ve
               | ["disc", i] => some (if sp2.selfDestroy.contains (i.toNat?.getD 0) then "disc.selfdestroy" else "disc")
               | ["fut", _, st] => some ("fut." ++ st)
               | _ => none
-            go m' sp2 (tag ++ tag2 ++ tags) rest'
+            -- the history ends (the harness destroys what is left) with an echoed receive buffer still queued
+            let tag3 := if op?.isNone && m.socks.any (fun i => (s.sock i).alive && s.lent (s.sock i) > 0) then ["end.echoed"] else []
+            go m' sp2 (tag ++ tag2 ++ tag3 ++ tags) rest'
 
 def runCase (body : List String) : Verdict := go {} {} [] body
 
